@@ -162,6 +162,10 @@ def srv_line(i, disk, ops, extra_reqs=(), jitter=None):
     spec = {"dir": d, "disk": {FILES[f]: v.text for f, v in disk.items()}, "script": script, "timeout_ms": 8000}
     if jitter is not None:
         spec["jitter"] = jitter
+    # every second session is driven by a client that announces an editor's full capability set (dynamic registration, every
+    # refreshSupport, progress, configuration ...): what the server publishes and answers must not depend on it
+    if (len(script) + len(ops)) % 2 == 0:
+        spec["caps"] = "full"
     return "srv " + json.dumps(spec), d, ws
 
 
